@@ -750,13 +750,18 @@ fn c05x_program(rng: &mut Rng) -> Project
 				let mut cknown: Vec<String> = imp_known.clone();
 				// the other direction: a name the root uses as a plain forward reference is declared (`.global`) and valued in the included file
 				let mut handed: Vec<String> = vec![];
+				let mut exported: Vec<String> = vec![];
 				if rng.chance(1, 3)
 				{
 					if let Some(pos) = pending.iter().position(|n| !n.declared)
 					{
 						let n = pending.remove(pos);
-						x.files[fi].1.push_str(&format!(".global {};
-", n.name));
+						// handed up either by `.global` in the included file, or - the root declares the name before the include -
+						// by `.export` once the included file has defined it
+						if rng.chance(1, 2) { x.files[fi].1.push_str(&format!(".global {};
+", n.name)); }
+						else { x.files[0].1.push_str(&format!(".global {};
+", n.name)); exported.push(n.name.clone()); }
 						handed.push(n.name.clone());
 						cpend.push(n);
 					}
@@ -785,6 +790,8 @@ fn c05x_program(rng: &mut Rng) -> Project
 					}
 				}
 				for n in cpend.drain(..) { x.define(fi, &n); }
+				for n in exported.iter() { x.files[fi].1.push_str(&format!(".export {};
+", n)); }
 				// the same statements once more inside the file (its own names are defined now, the imported ones may still be open)
 				for h in own_holes { if TEMPL[x.holes[h].templ].kind == 0 && rng.chance(1, 2) { let t = x.holes[h].templ; x.hole(fi, t, &[], &[], Some(h)); } }
 				// file scope: private constants of the root with the names (and other values) of the included file's private names
@@ -941,6 +948,9 @@ fn corpus_c13() -> Vec<(Project, String)>
 		(single(".addr 0x101; .align 512; .du8 1; .align 0x300; NOP;"), format!("V ok | S 101 {} i | S 200 01 i | S 201 {} i | S 300 00bf i", "be".repeat(255), "be".repeat(255))),
 		(single(".addr 0x300; NOP; .addr 0x0; .du8 1; .align 1024;"), "V overflow | S 300 00bf i | S 0 01 i".into()),
 		(single(".addr 0xFFFFFC01; .align 512; .align 1024;"), format!("V ok | S fffffc01 {} i | S fffffe00 {} i", "be".repeat(511), "be".repeat(512))),
+		// a region of more than 64 KiB (and of 128 KiB), then a fresh region: the next byte goes to the selected address
+		(single(".addr 0x20000001; .du8 0x55; .align 0x20000; .addr 0x10000000; .du8 0xA1; .du8 0xA2;"), format!("V ok | S 20000001 55 i | S 20000002 {} i | S 10000000 a1 i | S 10000001 a2 i", "be".repeat(0x1fffe))),
+		(single(".addr 0x30000000; .align 0x10000; .du8 1; .align 0x10000; .addr 0x30000000 - 2; .du16 0x0302; .addr 0x40000000; .du8 4;"), format!("V ok | S 30000000 01 i | S 30000001 {} i | S 2ffffffe 0203 i | S 40000000 04 i", "be".repeat(0xffff))),
 	]
 }
 
@@ -959,6 +969,18 @@ fn corpus_c05_subdir() -> Vec<(Project, String)>
 }
 
 fn corpus_c05() -> Vec<Project>
+{
+	let mut v = corpus_c05_fixed();
+	// .dfile around the 1024-byte read chunk (and multiples of it), a label behind it
+	for n in [1023usize, 1024, 1025, 2047, 2048, 2049, 3000, 4096]
+	{
+		let data: Vec<u8> = (0..n).map(|k| (k * 7 + k / 256) as u8).collect();
+		v.push(Project{files: vec![("root.asm".into(), b".addr 0x20000000; .du8 1; .dfile \"big.bin\"; after: .du32 after; .dfile \"big.bin\"; .du8 2;".to_vec()), ("big.bin".into(), data)], root: "root.asm".into()});
+	}
+	v
+}
+
+fn corpus_c05_fixed() -> Vec<Project>
 {
 	vec![
 		single(".addr 0x100; B later; NOP; later: NOP;"),
